@@ -29,6 +29,17 @@ PROPS = {
         ],
         "assumptions": E1_ASSUME,
     },
+    "C04": {
+        "level": "model_checking",
+        "uses_vsched": True,
+        "technique": "stateless model checking under a controlled scheduler with virtual time: delay-bounded schedules x cancel target/stage x peer behaviours (answers, late, never, stops draining)",
+        "claim": "(i) real sessions: two in-flight tool calls, which one is cancelled and when (early, at first idle moment, after return) plus schedule deviations; only the matching handler may observe ctx.Done, the caller returns with zero virtual time after cancel, the session stays usable; (ii) mcp call() over a scripted transport whose peer answers, answers after the cancel, never answers, or parks the request / the cancel notice write until its context ends: prompt return, the other in-flight call and later calls unaffected, nothing left after the 5s notice timeout",
+        "note": "two concurrent calls; budget-bounded schedules; virtual time (a return that needs a timer is a violation)",
+        "parts": [
+            {"pkg": "mcp", "mode": "instr", "test": "TestVerifC04"},
+        ],
+        "assumptions": E1_ASSUME,
+    },
     "C20": {
         "level": "model_checking",
         "technique": "explicit-state breadth-first search over operation histories of the real MemoryEventStore with a reference model and private-state invariants checked after every operation",
